@@ -1147,7 +1147,8 @@ template< typename T>
    common::Tokenizer  tok( value, mListSep);
    for (auto it = tok.begin(); it != tok.end(); ++it)
    {
-      if ((it != tok.begin()) && (mpCardinality.get() != nullptr))
+      if ((it != tok.begin()) && !mIgnoreCardinality
+          && (mpCardinality.get() != nullptr))
          mpCardinality->gotValue();
 
       auto  list_val( *it);
@@ -1547,7 +1548,8 @@ template< typename T>
    common::Tokenizer  tok( value, mListSep);
    for (auto it = tok.begin(); it != tok.end(); ++it)
    {
-      if ((it != tok.begin()) && (mpCardinality.get() != nullptr))
+      if ((it != tok.begin()) && !mIgnoreCardinality
+          && (mpCardinality.get() != nullptr))
          mpCardinality->gotValue();
 
       auto  list_val( *it);
@@ -1841,7 +1843,8 @@ template< typename T, size_t N>
    common::Tokenizer  tok( value, mListSep);
    for (auto it = tok.begin(); it != tok.end(); ++it)
    {
-      if ((it != tok.begin()) && (mpCardinality.get() != nullptr))
+      if ((it != tok.begin()) && !mIgnoreCardinality
+          && (mpCardinality.get() != nullptr))
          mpCardinality->gotValue();
 
       if (mIndex == N)
@@ -2125,7 +2128,8 @@ template< typename T, size_t N>
    common::Tokenizer  tok( value, mListSep);
    for (auto it = tok.begin(); it != tok.end(); ++it)
    {
-      if ((it != tok.begin()) && (mpCardinality.get() != nullptr))
+      if ((it != tok.begin()) && !mIgnoreCardinality
+          && (mpCardinality.get() != nullptr))
          mpCardinality->gotValue();
 
       if (mIndex == N)
@@ -2470,7 +2474,8 @@ template< typename... T>
    common::Tokenizer  tok( value, mListSep);
    for (auto it = tok.begin_counting(); it != tok.end_counting(); ++it)
    {
-      if ((it.currentNum() > 0) && (mpCardinality.get() != nullptr))
+      if ((it.currentNum() > 0) && !mIgnoreCardinality
+          && (mpCardinality.get() != nullptr))
          mpCardinality->gotValue();
 
       std::string  list_val( *it);
@@ -2707,7 +2712,7 @@ template< size_t N>
    common::Tokenizer  tok( value, mListSep);
    for (auto it = tok.begin(); it != tok.end(); ++it)
    {
-      if (mpCardinality && (it != tok.begin()))
+      if (mpCardinality && !mIgnoreCardinality && (it != tok.begin()))
          mpCardinality->gotValue();
 
       auto const&  list_val( *it);
@@ -2886,7 +2891,7 @@ protected:
       common::Tokenizer  tok( value, mListSep);
       for (auto it = tok.begin(); it != tok.end(); ++it)
       {
-         if (mpCardinality && (it != tok.begin()))
+         if (mpCardinality && !mIgnoreCardinality && (it != tok.begin()))
             mpCardinality->gotValue();
 
          auto const&  listVal( *it);
@@ -3103,7 +3108,7 @@ protected:
       common::Tokenizer  tok( value, mListSep);
       for (auto it = tok.begin(); it != tok.end(); ++it)
       {
-         if (mpCardinality && (it != tok.begin()))
+         if (mpCardinality && !mIgnoreCardinality && (it != tok.begin()))
             mpCardinality->gotValue();
 
          auto const&  listVal( *it);
